@@ -77,6 +77,7 @@ type c35Mock struct {
 	trace   []string
 	cancel  context.CancelFunc
 	nocount bool // the cleanup Remove inside Save is not an attempt
+	rewound bool // Rewind already started the current Save attempt
 }
 
 func c35Name(n int) string { return fmt.Sprintf("%02d", n) }
@@ -134,11 +135,17 @@ func (r *c35Reader) Rewind() error {
 	if a.RewindFails {
 		return r.m.ret(c35ErrRewind)
 	}
+	r.m.rewound = true
 	r.rd = bytes.NewReader(r.data)
 	return nil
 }
 
 func (m *c35Mock) Save(ctx context.Context, h backend.Handle, rd backend.RewindReader) error {
+	if !m.rewound {
+		// Save without a preceding Rewind: the attempt starts here, the reader is wherever it is
+		m.begin("ok")
+	}
+	m.rewound = false
 	a := m.cur // started by Rewind
 	n := c35Num(h.Name)
 	got, _ := io.ReadAll(rd) // what actually arrives (a missing rewind shows up as missing bytes)
@@ -390,7 +397,7 @@ func c35Op(h *H, m *c35Mock, be *retry.Backend, redesign bool, maxLen int, loadA
 	if !redesign && stop == "never" && h.Intn(3) == 0 {
 		slen = 9 + h.Intn(4) // reach the WithMaxRetries bound of the deprecated mode
 	}
-	m.script, m.next, m.trace, m.cancel, m.nocount = nil, 0, nil, cancel, false
+	m.script, m.next, m.trace, m.cancel, m.nocount, m.rewound = nil, 0, nil, cancel, false, false
 	var err error
 	var toks []string
 	extra := func() {}
